@@ -85,6 +85,7 @@ struct EngineBase {
     MonScope m;
     ++n_hist;
     if (sample_hist.size() < 3) sample_hist.push_back(cur_hist_text);
+    else if (g_fz_on && cur_hist_text.size() > sample_hist[n_hist % 3].size()) sample_hist[n_hist % 3] = cur_hist_text;  // fuzz mode: keep long ones
   }
 
   void write_summary(const char *cfg, uint64_t seed, long from, long next, long to, bool hook) {
